@@ -260,15 +260,25 @@ def run_cycles(fmt, spec, cycles, workdir):
             except Exception as e:  # noqa: BLE001
                 out.update(status="raises", where=f"reader@cycle{i + 1}", exc=e)
                 break
+            # the identity-based walker is linear even on a malformed (shared / cyclic) structure; the recursive
+            # observer is only used on models the walker accepts
+            w = wf.problems(m)
             if i == 0:
-                out["wf"] = wf.problems(m)
+                out["wf"] = w
+            if w[0]:
+                out.update(status="malformed", where=f"reader@cycle{i + 1}", wfprobs=w[0])
+                break
+            if i == 0:
                 out["extra"] = out.get("extra") or fmt.extra(p, m)
                 if not out["extra"]:
                     # history: the same reader object asked again returns the same model (and leaves the first intact)
                     try:
                         o1 = S.observe(m)
                         m_again = rd.transform()
-                        if S.observe(m_again) != o1:
+                        w2 = wf.problems(m_again)[0] or wf.problems(m)[0]
+                        if w2:
+                            out["extra"] = ("same-reader-asked-again", "not-wellformed-after-second-transform", "; ".join(w2[:3]))
+                        elif S.observe(m_again) != o1:
                             out["extra"] = ("same-reader-asked-again", "model-differs-on-second-transform",
                                             first_obs_diff(o1, S.observe(m_again)))
                         elif S.observe(m) != o1:
@@ -362,6 +372,9 @@ def judge(fmt, spec, cycles, workdir):
     """Return None when the case held, else (clause, symptom, detail)."""
     s0 = S.norm_spec(spec)
     res = run_cycles(fmt, spec, cycles, workdir)
+    if res["status"] == "malformed":
+        return ("well-formed" if res["where"].endswith("cycle1") else "further-cycles-change-nothing", "not-wellformed",
+                f"{res['where']}: " + "; ".join(res["wfprobs"][:3]))
     if res["status"] == "raises":
         e = res["exc"]
         side = res["where"].split("@")[0]
